@@ -65,8 +65,10 @@ func GetFileNameList(path string, ignoreList []string) (fields []Field, err erro
 			if errors.Is(err, os.ErrNotExist) {
 				continue
 			}
+			// An alias whose target cannot be examined (an alias to itself, say) is left out like a dangling one,
+			// rather than making the whole folder unlistable.
 			if err != nil {
-				return fields, err
+				continue
 			}
 
 			if rFile.IsDir() {
